@@ -464,6 +464,12 @@ func (s Segment) forRewrite() (*RewriteSegment, error) {
 }
 
 func (src Segment) Rewrite(dropOffsets map[int64]struct{}, params index.Params, mversion message.Version, iversion index.Version) (*RewriteSegment, error) {
+	return src.RewriteUpTo(-1, dropOffsets, params, mversion, iversion)
+}
+
+// RewriteUpTo is Rewrite of the messages below position limit of the log (all of them if limit is negative).
+// A segment that is being appended to is only read up to what was completely written.
+func (src Segment) RewriteUpTo(limit int64, dropOffsets map[int64]struct{}, params index.Params, mversion message.Version, iversion index.Version) (*RewriteSegment, error) {
 	dst, err := src.forRewrite()
 	if err != nil {
 		return nil, err
@@ -486,7 +492,7 @@ func (src Segment) Rewrite(dropOffsets map[int64]struct{}, params index.Params, 
 	var srcPosition = srcLog.InitialPosition()
 	var indexTime int64
 	var dstIndex []index.Item
-	for {
+	for limit < 0 || srcPosition < limit {
 		msg, nextSrcPosition, err := srcLog.Read(srcPosition)
 		if err != nil {
 			if errors.Is(err, io.EOF) {
